@@ -39,6 +39,9 @@ def check_human(ctx, backend, kw, pre=0, then=None):
             observe(u, reverse=True)
         elif pre == 3:
             u.path_safe, u.raw_path_qs, u.host_port_subcomponent, u.authority
+        elif pre == 4:
+            # other URLs were derived from u before it is shown (their results are discarded): u itself must be unaffected
+            u.query, u.update_query([("zz", "1"), ("k", "v w")]), u % (("zz", "2"),), u.extend_query([("e", "x")]), u.update_query({"zz": "3"}), u.with_query(None), u / "s", u.with_fragment("g")
     except (ValueError, TypeError):
         ctx.case(False, label="skipped:rejected")
         return
@@ -113,7 +116,7 @@ def kwargs():
 
 
 def generated(ctx, backend, n):
-    ctx.given("human", {"kw": kwargs(), "pre": st.integers(0, 3), "then": st.sampled_from([None, None, "with_port-default", "with_scheme-match", "with_fragment"])}, max_examples=n, fixed={"backend": backend})
+    ctx.given("human", {"kw": kwargs(), "pre": st.integers(0, 4), "then": st.sampled_from([None, None, "with_port-default", "with_scheme-match", "with_fragment"])}, max_examples=n, fixed={"backend": backend})
 
 
 def shards(tier, seed):
